@@ -9,6 +9,7 @@ import AspireModel.Model.CkptFile
 import AspireModel.Model.Ctx
 import AspireModel.Model.Wiring
 import AspireModel.Model.Transforms
+import AspireModel.Model.Session
 import AspireModel.ErfFloat
 /-
   Pure part of the line-protocol driver: one request line in, one reply line out.
@@ -437,6 +438,43 @@ def opTfm : P String := do
     pure (outL ys.flatten ++ " " ++ outL m ++ " " ++ outL s)
   | t => throw s!"bad tfm direction {t}"
 
+
+/-! ### checkpoint-file session (C14): `session nops op…`, snapshot of files 1 and 2 after every op -/
+def parseSampler : P SamplerKind := do
+  match (← tok) with
+  | "importance" => pure .importance
+  | "smc" => pure .smc
+  | t => throw s!"bad sampler {t}"
+
+def parseSOp : P SOp := do
+  match (← tok) with
+  | "fit" => do let p ← optNat; let o ← bool; pure (.fit p o)
+  | "sample" => do
+    let k ← parseSampler; let p ← optNat; let c ← bool; let n ← nat; pure (.sample k p c n)
+  | "enter" => do let p ← nat; let sc ← bool; pure (.enter p sc)
+  | "exit" => pure .exit
+  | "resume" => do let p ← nat; pure (.resume p)
+  | t => throw s!"bad session op {t}"
+
+def outOptNat : Option Nat → String | none => "-" | some n => toString n
+def outSk : SamplerKind → String | .importance => "importance" | .smc => "smc"
+def outFile (f : CkFile) : String :=
+  s!"{outOptNat f.flow} {outB f.hasConfig} {match f.cfgSampler with | none => "-" | some k => outSk k} " ++
+  (match f.ckpt with | none => "- -" | some (v, k) => s!"{v} {outSk k}") ++ " " ++ outB (Consistent f)
+
+def opSession : P String := do
+  let ops ← listOf parseSOp
+  let rec go (s : Sess) (ops : List SOp) (acc : List String) : List String :=
+    match ops with
+    | [] => acc.reverse
+    | op :: rest =>
+      let (s', raised) := match sstep s op with
+        | some s' => (s', false)
+        | none => (s, true)
+      let snap := s!"{outB raised} {outOptNat s'.memFlow} {outFile (getFile s'.files 1)} {outFile (getFile s'.files 2)}"
+      go s' rest (snap :: acc)
+  pure (" | ".intercalate (go {} ops []))
+
 def dispatch (op : String) : P String :=
   match op with
   | "weights" => opWeights (α := α)
@@ -462,6 +500,7 @@ def dispatch (op : String) : P String :=
   | "ctx" => opCtx
   | "wiring" => opWiring
   | "tfm" => opTfm (α := α)
+  | "session" => opSession
   | _ => throw s!"unknown op {op}"
 
 end Driver
